@@ -401,4 +401,4 @@ def shard(ctx: Ctx):
         s = draw(gen.schemas(feats, sizes, min_tables=1))
         return s, draw(gen.styles()), draw(st.lists(edit, max_size=12))
 
-    hyp_run(ctx, 'scripts', cases(), lambda c: evaluate(c, ctx), 130 if quick else 4000)
+    hyp_run(ctx, 'scripts', cases(), lambda c: evaluate(c, ctx), 130 if quick else 1300)
